@@ -25,13 +25,15 @@ CHECK = {
            'ascending / descending / interleaved value), once more after a refill; after EVERY operation len == forward count == backward count, backward is the exact '
            'reverse of forward, the items are the reference model\'s, get / mem of every yielded item agree and removed items are absent (states = container states '
            'checked, transitions = operations; non-trivial = histories of n >= 11, which cross a Table/Array capacity boundary in both directions).  '
-           'phase=assign: for Range, Slice, Zip, Filter, Map assign(a, b) from a heap and from a stack source (and copy(b) for Filter / Map) must give an independent '
+           'phase=assign: for Range, Slice, Zip, Filter, Map assign(a, b) from a heap and from a stack source and copy(b) of a heap and of a stack original must give an independent '
            'iterator: same walks / len as b, nested iteration over both gives len*len right pairs, target-source-target walks agree, after del(source) every item the '
            'target hands out is a live object with the right value, and a target assigned from a stack object inside a helper that returned still walks correctly.  '
            'phase=midop: for every iterable kind, direction and position p the walk is taken to p, one call the kind must refuse is made (index len / -len-1 / far / INT64 limits, '
            'absent key or element, wrong-typed key or value, pop_at / push_at out of range, impossible resize, missing method, mutating a stack Tuple), the exception must be in the '
            'accept set of that failure kind, and the rest of the walk, the held item and len must be exactly those of the undisturbed walk; a successful get in mid-iteration must not '
-           'disturb containers and is only recorded for Range / Slice / Zip / Map, whose get shares the cursor with iteration.'),
+           'disturb containers and is only recorded for Range / Slice / Zip / Map, whose get shares the cursor with iteration.  '
+           'phase=gcitems: heap and stack Zips over a Map that produces a fresh collector-managed object per element (and a Range / a second Map), 3 / 50 / 300 elements, both '
+           'directions; between each cursor step and the use of the pair the dead stack is scrubbed and garbage allocated, then every component must be a live Int with the produced value.'),
   'bounds': {
     'quick': ('leaves: Array/List/stack Tuple/heap Tuple/Table/Tree x length 0..6, Tuples holding one object twice (all position pairs, length 2..5); '
               'Range: all four arities over {_, -7..7}^3 (4,096); Slice: arities slice(I) / (I,stop) / (I,start,stop) / (I,start,stop,step) + reverse(I) over '
@@ -40,7 +42,7 @@ CHECK = {
               '25 x 25 views (14 slices incl. reverse, 5 filters, 2 maps, 3 zips incl. zip of two equal-shaped views over leaves of unequal length, enumerate) x 7 kinds x length 0..4; '
               'nesting depth 3 over the same family x 7 kinds x length 0..3; views constructed with new() at length <= 3; '
               'histories: Array/List/heap Tuple/Table/Tree (maps also with keys colliding modulo 5, 11, 55) x n in {5,6,11,12,23,24,54} x 6 removal orders x {once, refill and again} '
-              '(420 histories, every state checked; ASan n <= 24); assign/copy: 43 parameter sets x {heap source, stack source, copy} x 4 scenarios (243 cases, also under ASan); '
+              '(420 histories, every state checked; ASan n <= 24); assign/copy: 43 parameter sets x {assign from heap, assign from stack, copy of heap, copy of stack original} x 4 scenarios (walks+len+get, nested, sequential, del-source) (430 cases, also under ASan); '
               'refused call in mid-iteration: 13 kinds (containers length 0..4, 12 Ranges and 9 Slices each as macro and new(), 16 Zips, 6 Filters, 5 Maps) x 2 directions x every position x every '
               'applicable refused call (3,648 cases, also under ASan); '
               'ASan+UBSan (clang): the same grids one size step smaller (length <= 4, Slice/Range args in [-5..5], compositions length <= 3, depth 3 length <= 2)'),
@@ -60,7 +62,7 @@ CHECK = {
     'Table order is unspecified and Tree order only monotone: their own validated forward order (each key once) is the reference for everything built on them; '
     'get(i) is not positional for them and not judged',
     'a Tuple holding the same object twice is a separate dimension (leaves only); Terminal inside a Tuple is documented as unsupported and not explored',
-    'copy() of a Range, Slice or Zip raises on the current tree and is not part of the assign/copy grid; Zips and views in that grid are built over containers '
+    'copy() of every generator / view kind (Range, Slice, Zip, Filter, Map; heap and stack originals) is part of the assign/copy grid; Zips and views in that grid are built over containers '
     '(a Range shared by two views is one cursor by design); a Zip of unequal lengths is not walked backwards there (recorded finding D17)',
     'midop: the calls that used to be switched off (get(-len-1) on Range/Slice, a refused get on a Zip whose earlier input is longer, a successful get(slice, k) during an iteration over the same Slice) are judged since the fixes c296c27, 76e756b, bc5c7a5 (flags rangeneg=1 zipget=1 sliceget=1); a successful get during the '
     'iteration of a Range, Zip or Map moves the shared cursor on the current tree (existing behaviour, recorded in successful_get_moves_iteration, not judged)',
@@ -83,6 +85,7 @@ CHECK = {
       + [I('history', 'base', 'phase=history'), I('history-asan', 'asan', 'phase=history', 'hmax=24')]
       + [I('assign', 'base', 'phase=assign'), I('assign-asan', 'asan', 'phase=assign')]
       + [I('midop', 'base', 'phase=midop', 'rangeneg=1', 'zipget=1', 'sliceget=1'), I('midop-asan', 'asan', 'phase=midop', 'rangeneg=1', 'zipget=1', 'sliceget=1')]
+      + [I('gcitems', 'base', 'phase=gcitems'), I('gcitems-asan', 'asan', 'phase=gcitems', 'gmax=50')]
     ),
     'thorough': (
       [I('base', 'base', 'phase=base', 'maxn=8'), I('range', 'base', 'phase=range', 'rmax=9')]
@@ -100,6 +103,7 @@ CHECK = {
       + [I('history', 'base', 'phase=history'), I('history-asan', 'asan', 'phase=history')]
       + [I('assign', 'base', 'phase=assign'), I('assign-asan', 'asan', 'phase=assign')]
       + [I('midop', 'base', 'phase=midop', 'rangeneg=1', 'zipget=1', 'sliceget=1'), I('midop-asan', 'asan', 'phase=midop', 'rangeneg=1', 'zipget=1', 'sliceget=1')]
+      + [I('gcitems', 'base', 'phase=gcitems'), I('gcitems-asan', 'asan', 'phase=gcitems', 'gmax=50')]
     ),
   },
 }
